@@ -251,7 +251,9 @@ PROPS["C01"] = {'claimed': True,
          'poll timings incl. periods above Tslot/4, PHY busy answers exact / never / late / random, set_offline / set_online in every state, 0..3 '
          'scripted applications, stable two-master rings over many token visits with small HSA (complete GAP sweeps, late successor inside the GAP, '
          'GAP replies ready / in-ring / not-ready / slave / wrong source / wrong destination / status != Ok), rings of 3..4 known stations whose '
-         'successor vanishes and returns; every case runs under a wall-clock watchdog (TIMEOUT); non-trivial = polls that transmit, accept a token, deliver a reply / time-out or run a GAP branch',
+         'successor vanishes and returns, re-claims after the other masters died (GAP cursor mid-sweep / waiting), short TTR with applications that never decline / whose '
+         'requests time out after another application declined, PHY busy longer than the predicted transmission with successors answering late; every case runs '
+         'under a wall-clock watchdog (TIMEOUT); non-trivial = polls that transmit, accept a token, deliver a reply / time-out or run a GAP branch',
  'trusted_base': ['hand model coq/Model/Fdl.v of src/fdl/active.rs (all of it: states, legality assertions, poll_inner branch for branch), on top of '
                   "Telegram.v / Phy.v / TokenRing.v / Params.v; tied by differential execution poll by poll on this run's histories (all outputs, "
                   'public getters and the private state through the verif-hooks fingerprint)',
@@ -290,7 +292,9 @@ PROPS["C05"] = {'claimed': True,
          'poll timings incl. periods above Tslot/4, PHY busy answers exact / never / late / random, set_offline / set_online in every state, 0..3 '
          'scripted applications, stable two-master rings over many token visits with small HSA (complete GAP sweeps, late successor inside the GAP, '
          'GAP replies ready / in-ring / not-ready / slave / wrong source / wrong destination / status != Ok), rings of 3..4 known stations whose '
-         'successor vanishes and returns; every case runs under a wall-clock watchdog (TIMEOUT); non-trivial = polls that transmit, accept a token, deliver a reply / time-out or run a GAP branch',
+         'successor vanishes and returns, re-claims after the other masters died (GAP cursor mid-sweep / waiting), short TTR with applications that never decline / whose '
+         'requests time out after another application declined, PHY busy longer than the predicted transmission with successors answering late; every case runs '
+         'under a wall-clock watchdog (TIMEOUT); non-trivial = polls that transmit, accept a token, deliver a reply / time-out or run a GAP branch',
  'trusted_base': ['hand model coq/Model/Fdl.v of src/fdl/active.rs (all of it: states, legality assertions, poll_inner branch for branch), on top of '
                   "Telegram.v / Phy.v / TokenRing.v / Params.v; tied by differential execution poll by poll on this run's histories (all outputs, "
                   'public getters and the private state through the verif-hooks fingerprint)',
@@ -328,7 +332,9 @@ PROPS["C06"] = {'claimed': True,
          'poll timings incl. periods above Tslot/4, PHY busy answers exact / never / late / random, set_offline / set_online in every state, 0..3 '
          'scripted applications, stable two-master rings over many token visits with small HSA (complete GAP sweeps, late successor inside the GAP, '
          'GAP replies ready / in-ring / not-ready / slave / wrong source / wrong destination / status != Ok), rings of 3..4 known stations whose '
-         'successor vanishes and returns; every case runs under a wall-clock watchdog (TIMEOUT); non-trivial = polls that transmit, accept a token, deliver a reply / time-out or run a GAP branch',
+         'successor vanishes and returns, re-claims after the other masters died (GAP cursor mid-sweep / waiting), short TTR with applications that never decline / whose '
+         'requests time out after another application declined, PHY busy longer than the predicted transmission with successors answering late; every case runs '
+         'under a wall-clock watchdog (TIMEOUT); non-trivial = polls that transmit, accept a token, deliver a reply / time-out or run a GAP branch',
  'trusted_base': ['hand model coq/Model/Fdl.v of src/fdl/active.rs (all of it: states, legality assertions, poll_inner branch for branch), on top of '
                   "Telegram.v / Phy.v / TokenRing.v / Params.v; tied by differential execution poll by poll on this run's histories (all outputs, "
                   'public getters and the private state through the verif-hooks fingerprint)',
@@ -353,7 +359,9 @@ PROPS["C11"] = {'claimed': True,
          'poll timings incl. periods above Tslot/4, PHY busy answers exact / never / late / random, set_offline / set_online in every state, 0..3 '
          'scripted applications, stable two-master rings over many token visits with small HSA (complete GAP sweeps, late successor inside the GAP, '
          'GAP replies ready / in-ring / not-ready / slave / wrong source / wrong destination / status != Ok), rings of 3..4 known stations whose '
-         'successor vanishes and returns; every case runs under a wall-clock watchdog (TIMEOUT); non-trivial = polls that transmit, accept a token, deliver a reply / time-out or run a GAP branch',
+         'successor vanishes and returns, re-claims after the other masters died (GAP cursor mid-sweep / waiting), short TTR with applications that never decline / whose '
+         'requests time out after another application declined, PHY busy longer than the predicted transmission with successors answering late; every case runs '
+         'under a wall-clock watchdog (TIMEOUT); non-trivial = polls that transmit, accept a token, deliver a reply / time-out or run a GAP branch',
  'trusted_base': ['hand model coq/Model/Fdl.v of src/fdl/active.rs (all of it: states, legality assertions, poll_inner branch for branch), on top of '
                   "Telegram.v / Phy.v / TokenRing.v / Params.v; tied by differential execution poll by poll on this run's histories (all outputs, "
                   'public getters and the private state through the verif-hooks fingerprint)',
@@ -378,7 +386,9 @@ PROPS["C12"] = {'claimed': True,
          'poll timings incl. periods above Tslot/4, PHY busy answers exact / never / late / random, set_offline / set_online in every state, 0..3 '
          'scripted applications, stable two-master rings over many token visits with small HSA (complete GAP sweeps, late successor inside the GAP, '
          'GAP replies ready / in-ring / not-ready / slave / wrong source / wrong destination / status != Ok), rings of 3..4 known stations whose '
-         'successor vanishes and returns; every case runs under a wall-clock watchdog (TIMEOUT); non-trivial = polls that transmit, accept a token, deliver a reply / time-out or run a GAP branch',
+         'successor vanishes and returns, re-claims after the other masters died (GAP cursor mid-sweep / waiting), short TTR with applications that never decline / whose '
+         'requests time out after another application declined, PHY busy longer than the predicted transmission with successors answering late; every case runs '
+         'under a wall-clock watchdog (TIMEOUT); non-trivial = polls that transmit, accept a token, deliver a reply / time-out or run a GAP branch',
  'trusted_base': ['hand model coq/Model/Fdl.v of src/fdl/active.rs (all of it: states, legality assertions, poll_inner branch for branch), on top of '
                   "Telegram.v / Phy.v / TokenRing.v / Params.v; tied by differential execution poll by poll on this run's histories (all outputs, "
                   'public getters and the private state through the verif-hooks fingerprint)',
@@ -442,7 +452,9 @@ PROPS["C13"] = {'claimed': False,
          'poll timings incl. periods above Tslot/4, PHY busy answers exact / never / late / random, set_offline / set_online in every state, 0..3 '
          'scripted applications, stable two-master rings over many token visits with small HSA (complete GAP sweeps, late successor inside the GAP, '
          'GAP replies ready / in-ring / not-ready / slave / wrong source / wrong destination / status != Ok), rings of 3..4 known stations whose '
-         'successor vanishes and returns; every case runs under a wall-clock watchdog (TIMEOUT); non-trivial = polls that transmit, accept a token, deliver a reply / time-out or run a GAP branch',
+         'successor vanishes and returns, re-claims after the other masters died (GAP cursor mid-sweep / waiting), short TTR with applications that never decline / whose '
+         'requests time out after another application declined, PHY busy longer than the predicted transmission with successors answering late; every case runs '
+         'under a wall-clock watchdog (TIMEOUT); non-trivial = polls that transmit, accept a token, deliver a reply / time-out or run a GAP branch',
  'trusted_base': ['hand model coq/Model/Fdl.v of src/fdl/active.rs (all of it: states, legality assertions, poll_inner branch for branch), on top of '
                   "Telegram.v / Phy.v / TokenRing.v / Params.v; tied by differential execution poll by poll on this run's histories (all outputs, "
                   'public getters and the private state through the verif-hooks fingerprint)',
@@ -472,7 +484,9 @@ PROPS["C15"] = {'claimed': False,
          'poll timings incl. periods above Tslot/4, PHY busy answers exact / never / late / random, set_offline / set_online in every state, 0..3 '
          'scripted applications, stable two-master rings over many token visits with small HSA (complete GAP sweeps, late successor inside the GAP, '
          'GAP replies ready / in-ring / not-ready / slave / wrong source / wrong destination / status != Ok), rings of 3..4 known stations whose '
-         'successor vanishes and returns; every case runs under a wall-clock watchdog (TIMEOUT); non-trivial = polls that transmit, accept a token, deliver a reply / time-out or run a GAP branch',
+         'successor vanishes and returns, re-claims after the other masters died (GAP cursor mid-sweep / waiting), short TTR with applications that never decline / whose '
+         'requests time out after another application declined, PHY busy longer than the predicted transmission with successors answering late; every case runs '
+         'under a wall-clock watchdog (TIMEOUT); non-trivial = polls that transmit, accept a token, deliver a reply / time-out or run a GAP branch',
  'trusted_base': ['hand model coq/Model/Fdl.v of src/fdl/active.rs (all of it: states, legality assertions, poll_inner branch for branch), on top of '
                   "Telegram.v / Phy.v / TokenRing.v / Params.v; tied by differential execution poll by poll on this run's histories (all outputs, "
                   'public getters and the private state through the verif-hooks fingerprint)',
@@ -678,7 +692,9 @@ PROPS["C13"] = {'claimed': True,
          'poll timings incl. periods above Tslot/4, PHY busy answers exact / never / late / random, set_offline / set_online in every state, 0..3 '
          'scripted applications, stable two-master rings over many token visits with small HSA (complete GAP sweeps, late successor inside the GAP, '
          'GAP replies ready / in-ring / not-ready / slave / wrong source / wrong destination / status != Ok), rings of 3..4 known stations whose '
-         'successor vanishes and returns; every case runs under a wall-clock watchdog (TIMEOUT); non-trivial = polls that transmit, accept a token, '
+         'successor vanishes and returns, re-claims after the other masters died (GAP cursor mid-sweep / waiting), short TTR with applications that never decline / whose '
+         'requests time out after another application declined, PHY busy longer than the predicted transmission with successors answering late; every case runs '
+         'under a wall-clock watchdog (TIMEOUT); non-trivial = polls that transmit, accept a token, '
          'deliver a reply / time-out or run a GAP branch',
  'trusted_base': ['hand model coq/Model/Fdl.v of src/fdl/active.rs (all of it: states, legality assertions, poll_inner branch for branch), on top of '
                   "Telegram.v / Phy.v / TokenRing.v / Params.v; tied by differential execution poll by poll on this run's histories (all outputs, "
@@ -730,7 +746,9 @@ PROPS["C15"] = {'claimed': True,
          'poll timings incl. periods above Tslot/4, PHY busy answers exact / never / late / random, set_offline / set_online in every state, 0..3 '
          'scripted applications, stable two-master rings over many token visits with small HSA (complete GAP sweeps, late successor inside the GAP, '
          'GAP replies ready / in-ring / not-ready / slave / wrong source / wrong destination / status != Ok), rings of 3..4 known stations whose '
-         'successor vanishes and returns; every case runs under a wall-clock watchdog (TIMEOUT); non-trivial = polls that transmit, accept a token, '
+         'successor vanishes and returns, re-claims after the other masters died (GAP cursor mid-sweep / waiting), short TTR with applications that never decline / whose '
+         'requests time out after another application declined, PHY busy longer than the predicted transmission with successors answering late; every case runs '
+         'under a wall-clock watchdog (TIMEOUT); non-trivial = polls that transmit, accept a token, '
          'deliver a reply / time-out or run a GAP branch',
  'trusted_base': ['hand model coq/Model/Fdl.v of src/fdl/active.rs (all of it: states, legality assertions, poll_inner branch for branch), on top of '
                   "Telegram.v / Phy.v / TokenRing.v / Params.v; tied by differential execution poll by poll on this run's histories (all outputs, "
